@@ -23,6 +23,10 @@ a proxy that keeps the constructor's dynamic attribute store a site when it move
 Round 7: a search loop that hands back the colliding id (`return t.id`) is a free truth-value atom: refuted when every caller
 tests the result for truth (falsy ids), taken as true when every caller asks `is not None`; members_listed_once also refutes a
 summand with one entry per element of the argument (`[by_id[i] for i in ids]`) unless each entry is taken out of a copy of the list.
+Round 8: size arithmetic in the id test (`len(A | ids(X)) != len(A) + len(X)`), nested search loops over the incoming subtrees with
+filter conjuncts, _collect_subtree through a generator; list_ops_keep_members (c11) and owners_compared_by_identity (WBS.__eq__ with
+`!=` guards) also run under C05; c01.mirror_parent / c01.own are called through proxies (guard residues behind hoisted locals,
+`not key.startswith('_')` behind a hoisted local, dependency-list facades are not hierarchy state).
 Not decided: a memoised all_children whose invalidation looks complete (UNDECIDED); id tests written with running `picked`
 sets or other idioms the evaluator does not model (UNDECIDED).
 """
